@@ -113,6 +113,9 @@ func c02Gen(t *rapid.T, tier string) any {
 	if rapid.IntRange(0, 3).Draw(t, "bug") == 0 {
 		c.Cfg.Buggify = append(c.Cfg.Buggify, "query-reverse")
 	}
+	if rapid.IntRange(0, 2).Draw(t, "silentcancel") == 0 {
+		c.Cfg.Buggify = append(c.Cfg.Buggify, "query-silent-cancel")
+	}
 	if rapid.IntRange(0, 1).Draw(t, "postyield") == 0 {
 		c.Cfg.Buggify = append(c.Cfg.Buggify, "ds-post-yield")
 	}
